@@ -22,7 +22,7 @@ META = {
              "GetByIndex / the ExpiredAt filter answer alike on every history, ordered reads are sorted, reload preserves the index — are "
              "TESTED (correspondence + the expiry oracle over implementation replies), not proved; that the handlers apply the predicates as modelled (index build and maintenance, "
              "claim walks, patch metadata) is validated by the correspondence run, not proved. Expiries of different keys are kept "
-             "distinct (the index sort is unstable). Timing: past expiries may be arbitrarily close to the case base (requests run after it), future ones are >= 20 s away, the one expiry that passes during a case is bracketed by waits (3 s of slack before, certain after)."),
+             "distinct (the index sort is unstable). Timing: past expiries may be arbitrarily close to the case base (requests run after it), future ones are >= 120 s away and every case ends with a real-time bracket (`within 60000`: answered `hang slow` on a machine too slow, which makes /verif/check re-run the case alone); the one expiry that passes during a case is bracketed by `within 2800` before and a wait that ends after it."),
     "design_ref": "§8 C30",
 }
 
@@ -71,7 +71,7 @@ def run(ctx):
               "mixes of Set with expiry, PatchTreasures metadata (set / slide / clear, clear+set), Increment with expiry metadata, "
               "ShiftExpiredTreasures, PatchExpiredTreasures, GetByIndex(EXPIRATION_TIME asc/desc, from/limit), ExpiredAt filters "
               "(lt le gt ge ne IS_EMPTY IS_NOT_EMPTY against now / base / epoch), Get/GetAll/Delete, close+reload on persistent "
-              "swamps; expiries are an hour / 50 ms / 1 µs before and an hour / 20 s after the case base, 1970+1 s, pre-epoch, epoch; every case ends with "
+              "swamps; expiries are an hour / 50 ms / 1 µs before and an hour / two minutes after the case base, 1970+1 s, pre-epoch, epoch; every case ends with "
               "GetAll, GetByIndex, filter, ShiftExpired, GetAll; non-trivial = >= 3 ops; distinct = distinct case texts"),
         samples=samples,
         evaluations=len(c.ops),
@@ -91,7 +91,7 @@ def run(ctx):
 # ShiftExpired(0) must return exactly the records GetAll showed with an expiry in the past, the
 # `ExpiredAt < now` filter the same keys, GetByIndex(asc,0,0) the records with an expiry, oldest first.
 
-SLACK_NS = 10_000_000_000     # a future expiry closer than this to the evaluation is not judged
+SLACK_NS = 60_000_000_000     # a future expiry closer than this to the evaluation is not judged
 
 
 def _tok(tok):
@@ -125,6 +125,10 @@ def expiry_case_devs(ops, impl, skip, stats=None):
     for i in range(1, min(len(ops), len(impl))):
         f = ops[i].split(" ")
         got = impl[i]
+        if got.startswith("hang") or got == "skip":
+            break
+        if f[0] == "within":
+            continue
         if f[0] == "wait":
             waited += int(f[1]) * 1_000_000
             continue         # a wait changes no record: the view stays, `waited` moves
